@@ -20,6 +20,37 @@ def rotation(rng):
     return Rotation.random(random_state=int(rng.integers(2 ** 31))).as_matrix()
 
 
+def decorate(a):
+    """Every second structure (decided by a hash of its coordinates, no random numbers consumed) carries what users' Atoms
+    objects commonly carry: a FixAtoms constraint on some atoms, tags, initial charges, momenta.  None of it is part of the
+    structure the properties speak about, so no result may depend on it.  Applied last: ASE's own set_positions honours
+    constraints, and the harness must not be affected by them."""
+    from ase.constraints import FixAtoms
+
+    h = int(abs(float(np.sum(a.positions)) * 1e3)) % 4
+    if h < 2 or len(a) == 0:
+        return a
+    a.set_constraint(FixAtoms(indices=list(range(h % 2, len(a), 2))))
+    a.set_tags(np.arange(len(a)) % 3)
+    a.set_initial_charges(0.1 * (np.arange(len(a)) % 2))
+    a.set_momenta(np.ones((len(a), 3)))
+    return a
+
+
+def lefthand(a):
+    """Every third structure with a non-singular cell (decided by a hash of its coordinates) is described with its first two
+    cell vectors - and their pbc flags - interchanged: the same atoms, the same lattice, the same periodic directions, but a
+    left-handed basis (determinant < 0).  No property speaks about the handedness of the basis."""
+    from ase import Atoms
+
+    cell = a.cell[:]
+    if abs(np.linalg.det(cell)) < 1e-9 or int(abs(float(np.sum(a.positions)) * 1e3) // 4) % 3:
+        return a
+    pbc = a.get_pbc()
+    b = Atoms(numbers=a.numbers, positions=a.positions, cell=cell[[1, 0, 2]], pbc=pbc[[1, 0, 2]])
+    return b
+
+
 def rigid(atoms, rng, rotate=True, translate=True, permute=True):
     a = atoms.copy()
     if rotate:
@@ -31,7 +62,7 @@ def rigid(atoms, rng, rotate=True, translate=True, permute=True):
     if permute:
         perm = rng.permutation(len(a))
         a = a[perm]
-    return a, perm
+    return decorate(lefthand(a)), perm
 
 
 def random_cell(rng, kind, L):
@@ -376,8 +407,44 @@ def c01_family(tier):
     return fam
 
 
+def film_on_slab(desc):
+    """A thin two-species film (rock-salt (100) bilayer, listed species by species) over a much larger metal slab, separated
+    by a gap: the film is a small cluster whose atom indices sit at the end of a long list (index lists of such clusters are
+    not ascending when they come out of a Python set)."""
+    from ase import Atoms
+    from ase.build import fcc100
+
+    n = desc["n"]
+    sub = fcc100(desc["el"], size=(n, n, desc["layers"]), vacuum=0.0)
+    L = sub.cell[0, 0]
+    m = desc["m"]  # film atoms per edge (m x m per layer), nearest-neighbour distance L / m
+    d = L / m
+    pos, num = [], []
+    zs = (desc["A"], desc["X"])
+    from ase.data import atomic_numbers
+
+    for layer in range(2):
+        for i in range(m):
+            for j in range(m):
+                pos.append([i * d, j * d, layer * d])
+                num.append(atomic_numbers[zs[(i + j + layer) % 2]])
+    order = np.argsort(num, kind="stable")
+    film = Atoms(numbers=np.array(num)[order], positions=np.array(pos)[order])
+    top = sub.positions[:, 2].max()
+    film.translate([0.3, 0.2, top + desc["gap"]])
+    s = sub + film
+    cell = sub.cell[:].copy()
+    cell[2, 2] = top + desc["gap"] + d + 9.0
+    s.set_cell(cell)
+    s.set_pbc(desc["pbc"])
+    return s, len(sub)
+
+
 def build(kind, desc):
     """-> (atoms, extra)"""
+    if kind == "film":
+        a, nb = film_on_slab(desc)
+        return a, {"n_bottom": nb}
     if kind == "gas":
         return gas(desc), {}
     if kind == "block":
